@@ -19,7 +19,7 @@ from typing import cast
 
 import elementpath.aliases as ta
 
-from elementpath.datatypes import AbstractDateTime, ArithmeticProxy, Duration, NumericProxy
+from elementpath.datatypes import AbstractDateTime, ArithmeticProxy, Duration, Float, NumericProxy
 from elementpath.xpath_nodes import XPathNode, ElementNode, DocumentNode
 
 from elementpath.exceptions import ElementPathTypeError
@@ -172,6 +172,13 @@ def nud__plus_minus_operators(self: XPathToken) -> XPathToken:
     return self
 
 
+def float_result(value: float, op1: object, op2: object) -> float:
+    """The value as xs:float if an operand is an xs:float and the other is not an xs:double."""
+    if (isinstance(op1, Float) or isinstance(op2, Float)) and type(op1) is not float and type(op2) is not float:
+        return Float(value)
+    return value
+
+
 @method(infix('div', bp=45))
 def evaluate__div_operator(self: XPathToken, context: ta.ContextType = None) \
         -> int | float | decimal.Decimal | ta.AnyItemsOrEmpty:
@@ -203,11 +210,12 @@ def evaluate__div_operator(self: XPathToken, context: ta.ContextType = None) \
             isinstance(divisor, (int, decimal.Decimal)):
         raise self.error('FOAR0001')
     elif dividend == 0 or isinstance(dividend, float) and math.isnan(dividend):
-        return math.nan
+        return float_result(math.nan, dividend, divisor)
     elif dividend > 0:
-        return float('-inf') if str(divisor).startswith('-') else float('inf')
+        result = float('-inf') if str(divisor).startswith('-') else float('inf')
     else:
-        return float('inf') if str(divisor).startswith('-') else float('-inf')
+        result = float('inf') if str(divisor).startswith('-') else float('-inf')
+    return float_result(result, dividend, divisor)
 
 
 @method(infix('mod', bp=45))
@@ -221,13 +229,13 @@ def evaluate__mod_operator(self: XPathToken, context: ta.ContextType = None) \
     elif op2 is None:
         raise self.error('XPTY0004', '2nd operand is an empty sequence')
     elif op2 == 0 and (isinstance(op1, float) or isinstance(op2, float)):
-        return math.nan
+        return float_result(math.nan, op1, op2)
     elif isinstance(op2, float) and math.isinf(op2) and op1 != 0 and \
             not (isinstance(op1, float) and math.isinf(op1)):
         if self.parser.version == '1.0':
             return math.nan
         try:
-            return op1 if isinstance(op1, float) else float(op1)
+            return float_result(float(op1), op1, op2)
         except OverflowError as err:
             raise self.error('FOAR0002', err) from None
 
@@ -243,7 +251,7 @@ def evaluate__mod_operator(self: XPathToken, context: ta.ContextType = None) \
     except TypeError as err:
         raise self.error('FORG0006', err) from None
     except ValueError:
-        return math.nan
+        return float_result(math.nan, op1, op2)
     except OverflowError as err:
         raise self.error('FOAR0002', err) from None
     except (ZeroDivisionError, decimal.InvalidOperation) as err:
